@@ -173,6 +173,30 @@ Theorem C19_partition : forall cmds, wf_cmds cmds -> guard cmds ->
 Proof. exact partition_thm. Qed.
 Print Assumptions C19_partition.
 
+(* the cost of the 7.12 quirk and a bound on the pool size, for ANY history: size() = bytes owned by constants (payload) +
+   bytes in registered free gaps + bytes of lost gaps -- so the bytes that can never be used again are EXACTLY the lost
+   gaps -- and size() <= 2 * payload: alignment padding, free gaps and lost gaps together never exceed the payload *)
+Theorem C19_quirk_cost : forall cmds, wf_cmds cmds -> guard cmds ->
+  let p := final cmds in
+  psize p = payload p + free_bytes p + total (lost cmds) /\
+  psize p <= 2 * payload p /\
+  free_bytes p + total (lost cmds) <= payload p /\
+  0 <= total (lost cmds).
+Proof. exact quirk_cost_thm. Qed.
+Print Assumptions C19_quirk_cost.
+
+(* the gap loop in every reachable state pops min(6 - ti, |stack|) gaps of its class and answers the last one; the "split
+   the rest of the gap" branch of ConstPool::add (which would re-register the remainder at the gap's original offset --
+   what the seeded change C19-1 activates) is dead: every gap on stack ti is exactly 2^ti bytes and 2^ti-aligned *)
+Theorem C19_gap_loop_exact : forall cmds ti, wf_cmds cmds -> guard cmds -> (ti <= 6)%nat ->
+  let p := final cmds in
+  let stack := nth ti (gaps p) [] in
+  gap_loop (6 - ti) ti (pow2 ti) (gaps p) None =
+    (upd ti (skipn (6 - ti) stack) (gaps p), last_off (firstn (6 - ti) stack) None) /\
+  (forall g, In g stack -> snd g = pow2 ti /\ fst g mod pow2 ti = 0).
+Proof. exact gap_loop_reachable_thm. Qed.
+Print Assumptions C19_gap_loop_exact.
+
 Theorem C19_partition_quirk_witness : lost ex_quirk = [(10, 2)].
 Proof. exact lost_quirk_witness. Qed.
 Print Assumptions C19_partition_quirk_witness.
